@@ -25,6 +25,12 @@ ns cargo test -p trusttunnel --no-fail-fast --offline > seeded/validate.b.log 2>
 clean
 git apply seeded/demo.diff || { echo "RESULT demo does not apply alone"; exit 9; }
 ns cargo test -p trusttunnel --no-fail-fast --offline > seeded/validate.c.log 2>&1; c=$?
+if [ $c -ne 0 ]; then
+  reruns=$(grep -o 'to rerun pass `[^`]*`' seeded/validate.c.log | sed 's/to rerun pass `//; s/`$//' | sort -u)
+  c=0; echo "RERUN (demo only) of failing test binaries: $reruns"
+  [ -z "$reruns" ] && c=1
+  while read -r r; do [ -z "$r" ] && continue; ns cargo test --offline $r >> seeded/validate.c-rerun.log 2>&1 || c=1; done <<< "$reruns"
+fi
 clean
 echo "RESULT suite_with_patch_exit=$a demo_with_patch_exit=$b demo_without_patch_exit=$c"
 echo "failed with patch+demo:"; grep -E '^test .* FAILED|^    [a-z_:0-9]+$' seeded/validate.b.log | sort -u | head -20
